@@ -31,7 +31,11 @@ func GetIndexLetters(document *gedcom.Document, livingVisibility LivingVisibilit
 		case LivingVisibilityShow, LivingVisibilityPlaceholder:
 			letterMap[getIndexLetter(individual)] = true
 		case LivingVisibilityHide:
-			// nothing
+			// Living individuals do not appear on any page, so they must not
+			// produce a letter either.
+			if !individual.IsLiving() {
+				letterMap[getIndexLetter(individual)] = true
+			}
 		}
 	}
 
@@ -50,7 +54,13 @@ func GetIndexLetters(document *gedcom.Document, livingVisibility LivingVisibilit
 }
 
 func getIndexLetter(individual *gedcom.IndividualNode) rune {
-	name := strings.ToLower(individual.Name().Surname())
+	return getSurnameIndexLetter(individual.Name().Surname())
+}
+
+// getSurnameIndexLetter returns the letter of the individual list page that
+// individuals with this surname appear on.
+func getSurnameIndexLetter(surname string) rune {
+	name := strings.ToLower(surname)
 
 	switch {
 	case name == "", name[0] < 'a', name[0] > 'z':
